@@ -1,6 +1,7 @@
-#check @List.nodup_iff_count_le_one
-#check @List.nodup_iff_count
-#check @List.count_le_one_of_nodup
-open List in
-#check @Nodup.count
-example (l : List Nat) : l.Nodup ↔ ∀ a, l.count a ≤ 1 := by exact?
+import PydjinniModel.Props.C05Program
+open Pydjinni.Front
+def exPosSrc : String :=
+  "@import \"a.pydjinni\"\nr = record { a: map<string, list<i32>>; f: (x: i8) -> bool; }\n" ++
+  "namespace n.m { i = interface +cpp { property p: r; m(a: i8, b: list<r>) throws e -> r; }\n" ++
+  "e = error { c(x: i8 y: r); } }\ng = function (q: r) -> r;\n"
+#eval ((parseText exPosSrc).map (fun f => (walkContents { file := "f", keys := ["cpp"], defaultDeriving := [] } [] f.contents).refs.map (fun r => (r.name, r.pos.sl, r.pos.sc))))
